@@ -3,6 +3,7 @@
    the configuration.  Every check below is made by extracted model functions; this file
    only parses, calls them and prints. *)
 open Model
+type string = Stdlib.String.t
 open Conv
 
 type bst = { buf : Bytes.t; le : bool; total : int }
@@ -71,7 +72,8 @@ let run (args : (string * string) list) : string =
                    | x :: a', y :: b' -> if x = y then first (i + 1) a' b' else i
                    | _ -> i in
                  Printf.sprintf "FAIL(node%d)" (first 0 lists g));
-     add "trail" (if left = 0 then "ok" else Printf.sprintf "FAIL(%d-bits-left)" left);
+     let partial = get_opt args "partial" = Some "1" in
+     if not partial then add "trail" (if left = 0 then "ok" else Printf.sprintf "FAIL(%d-bits-left)" left);
      let recs = List.map (fun ((r, l), _) -> (r, l)) rs in
      let sel = List.map (fun ((r, _), _) -> r.r_ref) rs in
      add "wf" (ok (wf_records p N0 [] recs));
@@ -82,10 +84,10 @@ let run (args : (string * string) list) : string =
      add "chunkrefs" (ok (List.length starts = nn && refs_in_chunk N0 sel starts));
      add "depth" (ok (max_depth_ok p.max_ref sel));
      (* 2. re-encode with the implementation's own reference choices *)
-     if rt then begin
+     if rt && get_opt args "noreenc" <> Some "1" then begin
        let recs_fields = encode_graph p N0 g sel in
        let mbits = graph_bits le cs recs_fields in
-       let ibits = bits_of_bytes le buf 0 glen in
+       let ibits = bits_of_bytes le buf 0 (if partial then min glen (List.length mbits) else glen) in
        add "reenc" (ok (mbits = ibits));
        let lens = node_bitlens le cs recs_fields in
        let poss = List.map (fun (_, ps) -> ps) rs in
